@@ -5,7 +5,8 @@ d = {"kind": "memento", "where": "mod"|"aux", "explicit": None|str, feats..., "r
     {"kind": "plain",   "where": "mod"|"aux", feats..., "refs": [...], "wrapped": bool}
     {"kind": "var",     "where": "mod"|"aux", "value": <json value> | "UNSUPPORTED"}
 feats = const:int, setc:[str]|None, tup:[int]|None, dflt:int|None, kwd:int|None, lam:int|None
-form  = "bare" | "alias" | "hidden"       (module attribute form `aux.NAME` is implied by where == "aux")
+form  = "bare" | "alias" | "hidden" | "chained"   (module attribute form `aux.NAME` is implied by where == "aux";
+        "chained": the reference sits in the arguments of a call whose result is dereferenced: `_box(NAME).val`)
 Every feature flows into the return value, so every abstract edit is semantically observable.
 Functions only reference defs, cycles are allowed between memento functions only through "bare" refs
 guarded by depth (x > 0).
@@ -17,7 +18,7 @@ import os
 FEATS = ("const", "setc", "tup", "dflt", "kwd", "lam")
 
 
-def gen_prog(rng, nm=None, nh=None, nv=None, cyc_rate=0.15, hidden_rate=0.08, aux_rate=0.3, explicit_rate=0.15):
+def gen_prog(rng, nm=None, nh=None, nv=None, cyc_rate=0.15, hidden_rate=0.08, aux_rate=0.3, explicit_rate=0.15, chain_rate=0.6):
     nm = nm or rng.randint(2, 4)
     nh = rng.randint(0, 3) if nh is None else nh
     nv = rng.randint(0, 3) if nv is None else nv
@@ -26,7 +27,7 @@ def gen_prog(rng, nm=None, nh=None, nv=None, cyc_rate=0.15, hidden_rate=0.08, au
     for n in names:
         where = "aux" if (n[0] in "Vh" and rng.random() < aux_rate) else "mod"
         if n[0] == "V":
-            val = rng.choice([1, 2, "s", [1, 2], {"a": 1, "b": [2]}, 1.5, True, None, "UNSUPPORTED"])
+            val = rng.choice([1, 2, "s", [1, 2], {"a": 1, "b": [2]}, 1.5, True, None, "UNSUPPORTED", "DICT_FROM_SET0"])
             defs[n] = dict(kind="var", where=where, value=val)
             continue
         d = dict(kind="memento" if n[0] == "m" else "plain", where=where, const=rng.randint(0, 9),
@@ -54,8 +55,15 @@ def gen_prog(rng, nm=None, nh=None, nv=None, cyc_rate=0.15, hidden_rate=0.08, au
                 form = "alias"
             if defs[t]["kind"] == "memento" and d["kind"] == "memento" and rng.random() < hidden_rate:
                 form = "hidden"
+            elif form == "bare" and rng.random() < 0.15:
+                form = "chained"
             if [t, form] not in d["refs"]:
                 d["refs"].append([t, form])
+        earlier_m = [x for x in fn_names[:i] if x[0] == "m" and (d["where"] == "mod" or defs[x]["where"] == "aux")]
+        if d["kind"] == "memento" and earlier_m and rng.random() < chain_rate:
+            t = rng.choice(earlier_m)                    # chains of memento functions (depth >= 2 dependencies)
+            if not any(r[0] == t for r in d["refs"]):
+                d["refs"].append([t, "bare"])
         if d["kind"] == "memento" and rng.random() < cyc_rate:
             later = [x for x in fn_names[i:] if x[0] == "m" and (d["where"] == "mod" or defs[x]["where"] == "aux")]
             if later:
@@ -75,7 +83,8 @@ def edits(rng, prog, n=1):
             continue                      # variables of unsupported types are not tracked (outside the property)
         if d["kind"] == "var":
             old = d["value"]
-            d["value"] = rng.choice([v for v in [1, 2, 3, "s", "t", [1, 2], [2, 1], {"a": 1, "b": [2]}, {"b": [2], "a": 2}, 1.5, False] if v != old])
+            d["value"] = rng.choice([v for v in [1, 2, 3, "s", "t", [1, 2], [2, 1], {"a": 1, "b": [2]}, {"b": [2], "a": 2}, 1.5, False,
+                                                 "DICT_FROM_SET0", "DICT_FROM_SET1"] if v != old])
             log.append(["var", name])
             continue
         kind = rng.choice(["const", "setc", "tup", "dflt", "kwd", "lam", "ref+", "ref-", "explicit"])
@@ -107,7 +116,9 @@ def edits(rng, prog, n=1):
                 d["const"] += 1
         elif kind == "explicit":
             if d["kind"] == "memento":
-                d["explicit"] = rng.choice([x for x in [None, "e1", "e2", "e12", "e3"] if x != d["explicit"]])
+                # version strings are never reused (a reused string asserts "same behaviour as back then")
+                p["vctr"] = p.get("vctr", 10) + 1
+                d["explicit"] = None if (d["explicit"] and rng.random() < 0.3) else "e%d" % p["vctr"]
             else:
                 d["const"] += 1
         if d["kind"] == "memento" and d.get("explicit") and kind != "explicit":
@@ -148,7 +159,12 @@ def discipline(prev, cur):
 # ------------------------------------------------------------------------------------------------
 
 def _lit(v):
-    return "complex(1, 2)" if v == "UNSUPPORTED" else repr(v)
+    if v == "UNSUPPORTED":
+        return "complex(1, 2)"
+    if isinstance(v, str) and v.startswith("DICT_FROM_SET"):
+        # a dict whose insertion order is not fixed by the program text (it follows set iteration order)
+        return "{k: len(k) + %d for k in {'alpha', 'beta', 'gamma', 'delta', 'eps', 'zeta'}}" % int(v[13:] or 0)
+    return repr(v)
 
 
 def render_def(name, d, prog, pkg):
@@ -192,8 +208,12 @@ def render_def(name, d, prog, pkg):
         if td is not None and td["kind"] == "var" or td is None:
             if td is None:
                 L.append("    r.append(%s if %r in globals() else None)" % (expr, t))
+            elif form == "chained":
+                L.append("    r.append(_box(%s).val)" % expr)
             else:
                 L.append("    r.append(%s)" % expr)
+        elif form == "chained":
+            L.append("    r.append(_box(%s(x - 1) if x > 0 else None).val)" % expr)
         elif form == "hidden":
             L.append("    r.append(globals()[%r](x - 1) if x > 0 else None)" % t)
         else:
@@ -214,6 +234,15 @@ def _deco(fn):
         return fn(*a, **k)
     return wrapper
 
+
+class _Box:
+    def __init__(self, v):
+        self.val = v
+
+
+def _box(v):
+    return _Box(v)
+
 '''
 HEADER_AUX = '''from twosigma.memento import memento_function
 import functools
@@ -225,6 +254,15 @@ def _deco(fn):
     def wrapper(*a, **k):
         return fn(*a, **k)
     return wrapper
+
+
+class _Box:
+    def __init__(self, v):
+        self.val = v
+
+
+def _box(v):
+    return _Box(v)
 
 '''
 
@@ -254,6 +292,8 @@ def write_package(prog, root, pkg, order=None):
     open(os.path.join(d, "__init__.py"), "w").write("")
     open(os.path.join(d, "aux.py"), "w").write(mods["aux"])
     open(os.path.join(d, "mod.py"), "w").write(mods["mod"])
+    open(os.path.join(d, "other.py"), "w").write(
+        'from twosigma.memento import memento_function\n\n\n@memento_function(cluster="vp")\ndef unrelated(x):\n    return x\n')
     return d
 
 
